@@ -110,8 +110,7 @@ def replay_transition(t, rep, stats, fresh_oracle=True):
             o2 = w2.call(last["op"], last["a"])
         finally:
             w2.close()
-        a = {k: v for k, v in obs_last.items() if k != "cls"}
-        b = {k: v for k, v in o2.items() if k != "cls"}
+        a, b = dict(obs_last), dict(o2)      # the exception class included: a caller's except clause sees it
         stats["fresh"] += 1
         if a != b:
             rep.violation({"check": "warm vs fresh database", "op": last["op"], "args": last["a"], "after": short(h[:-1])},
